@@ -2,15 +2,6 @@
 From OtpV Require Import Prelude Sha GoSem Tables Errors Decoder Derive Otp Ocra LeakProofs Src SrcLift SrcEqOtp SrcEqOcra SrcTop C13.
 Open Scope N_scope.
 
-Definition verdict_ok (r : res (bool * option err)) : Prop :=
-  r = Val (true, None) \/ exists e, r = Val (false, Some e) /\ textless e.
-
-Lemma lift_v_verdict o : (exists k, o = (Ok (true, None), k) \/ exists e, o = (Ok (false, Some e), k)) ->
-  (forall e k, o = (Ok (false, Some e), k) -> textless e) -> verdict_ok (lift_v o).
-Proof.
-  intros [k [H|[e H]]] Ht; subst o; [left; reflexivity|right]. exists e. split; [reflexivity|]. eapply Ht. reflexivity.
-Qed.
-
 Theorem C13src_hotp : forall fuel junk secret code c p, runs fuel junk secret ->
   verdict_ok (Src.ValidateHOTP fuel junk secret code c p).
 Proof.
